@@ -31,6 +31,7 @@ type PropSpecFile struct {
 	SweepInline      int      `json:"sweep_inline"`  // inline depth for swept functions
 	SweepBudget      int      `json:"sweep_budget"`  // inlined-instruction budget for swept functions
 	SweepQuickPrefix []string `json:"sweep_quick_prefixes"` // quick tier: only functions with these key prefixes (empty = all)
+	OnlyNames        []string `json:"only_names"` // when set: only obligations whose name contains one of these (and canaries)
 	SweepSkipLabels  []string `json:"sweep_skip_pre_labels"` // swept functions: call-site preconditions with these clause labels belong to other properties
 }
 
@@ -66,6 +67,32 @@ func verifDir() string {
 	return "/verif"
 }
 
+// knownFailing: obligations recorded as known findings (any property). A failing obligation that is
+// a recorded defect is reported, but not assumed afterwards (it would make the rest of the function
+// unreachable); knownLoopInv holds "funcKey|ordinal:label" of invariants whose initiation is known to fail.
+var knownFailing = map[string]bool{}
+var knownLoopInv = map[string]bool{}
+
+func initKnown(dir string) {
+	for _, k := range loadKnown(dir) {
+		if k.Status != "known" {
+			continue
+		}
+		knownFailing[k.Obligation] = true
+		if i := strings.Index(k.Obligation, "/inv-init"); i >= 0 {
+			fn := k.Obligation[:i]
+			rest := k.Obligation[i+len("/inv-init"):]
+			if strings.HasPrefix(rest, "[") {
+				if j := strings.Index(rest, "]"); j > 0 {
+					fn = rest[1:j]
+					rest = rest[j+1:]
+				}
+			}
+			knownLoopInv[fn+"|"+strings.TrimPrefix(rest, ":")] = true
+		}
+	}
+}
+
 func loadKnown(dir string) []KnownFinding {
 	var k []KnownFinding
 	b, err := os.ReadFile(filepath.Join(dir, "known_findings.json"))
@@ -99,6 +126,7 @@ func cmdCheck(args []string) int {
 		return 2
 	}
 	dir := verifDir()
+	initKnown(dir)
 	t0 := time.Now()
 	P, err := LoadProgram()
 	if err != nil {
@@ -207,7 +235,7 @@ func checkProperty(dir string, P *Program, C *Contracts, id, tier string, verbos
 			defer wg.Done()
 			gensem <- struct{}{}
 			g0 := time.Now()
-			opts := VCOpts{Safety: j.safety, MaxInline: spec.MaxInline, Canary: true}
+			opts := VCOpts{Safety: j.safety, MaxInline: spec.MaxInline, Canary: true, Cover: !j.sweep}
 			if j.sweep || spec.SafetySweep {
 				opts.MaxInline = spec.SweepInline
 				opts.InlineBudget = spec.SweepBudget
@@ -325,6 +353,17 @@ func checkProperty(dir string, P *Program, C *Contracts, id, tier string, verbos
 					if skip {
 						continue
 					}
+				}
+			}
+			if len(spec.OnlyNames) > 0 && ob.Kind != "canary" {
+				keep := false
+				for _, n := range spec.OnlyNames {
+					if strings.Contains(ob.Name, n) {
+						keep = true
+					}
+				}
+				if !keep {
+					continue
 				}
 			}
 			if matchAny(ob.Name, spec.IgnoreObligation) {
